@@ -5,6 +5,7 @@ import copy
 import itertools
 import numbers
 import pickle
+import weakref
 
 from hypothesis import strategies as st
 
@@ -18,6 +19,8 @@ NODE_KINDS = {
     "gap": [-2, 0, 3, 7, 10, 11, 40],
     "str": ["a", "b", "c", "d", "e", "f", "g"],
     "str2": ["n1", "b", "c_", "0", "10", "x9", "zz"],
+    # three labels only: member sets collide all the time (duplicate edges, nested edges, IDs reused after merges)
+    "tiny": [0, 1, 2],
 }
 EID_ALPH = [0, 1, 2, 3, 5, 7, "x", "y"]
 ATTR_NAMES = ["color", "w", "weight", "tag", "label", "name"]
@@ -95,7 +98,9 @@ def op_lists(op, max_ops):
 eid_literal = st.sampled_from(EID_ALPH)
 # an edge-ID reference: a literal, ['#', k] = k-th existing ID, or ['+', k] = (next automatic ID) + k, i.e. a new
 # explicit integer ID at or just above the counter - the IDs an automatic ID is most likely to collide with later
-eid_ref = st.one_of(eid_literal, eid_literal, st.tuples(st.just("#"), st.integers(0, 11)).map(list), st.tuples(st.sampled_from(["+", "+", "+f", "+n"]), st.integers(0, 3)).map(list))
+# ['-', k] = k-th edge ID that existed earlier in this history and is gone now (IDs freed by removals and merges)
+eid_ref = st.one_of(eid_literal, eid_literal, st.tuples(st.just("#"), st.integers(0, 11)).map(list), st.tuples(st.sampled_from(["+", "+", "+f", "+n"]), st.integers(0, 3)).map(list),
+                    st.tuples(st.just("-"), st.integers(0, 5)).map(list))
 
 CTYPES = ["list", "tuple", "set", "frozenset", "iter"]
 
@@ -114,8 +119,26 @@ def container(ctype, xs):
     raise ValueError(ctype)
 
 
+_SEEN = weakref.WeakKeyDictionary()  # network -> edge IDs seen at earlier resolve calls (insertion ordered)
+
+
+def note_ids(H):
+    """remember the edge IDs present now (called before every op of a history)"""
+    try:
+        seen = _SEEN.setdefault(H, {})
+        for e in H._edge:
+            seen.setdefault(e, None)
+        return seen
+    except TypeError:
+        return {}
+
+
 def resolve_eid(H, ref):
     """literal edge ID, or ['#', k] = k-th currently existing edge ID (modulo), else a literal"""
+    seen = note_ids(H)
+    if isinstance(ref, list) and ref[0] == "-":
+        gone = [e for e in seen if e not in H._edge]
+        return gone[-1 - (ref[1] % len(gone))] if gone else EID_ALPH[ref[1] % len(EID_ALPH)]
     if isinstance(ref, list) and ref[0] in ("+", "+f", "+n"):  # '+f' / '+n': the same ID as an integer-valued float / numpy int
         try:
             v = peek_uid(H) + ref[1]
